@@ -31,7 +31,17 @@ import (
 type txArg struct {
 	S int `json:"s"`
 	N int `json:"n"`
-	C int `json:"c"`
+	C int `json:"c"` // effective class according to the model (not used by the driver)
+	K int `json:"k"` // class of the first message
+	M int `json:"m"` // number of messages
+}
+
+func msgsOf(a txArg) []sdk.Msg {
+	ms := []sdk.Msg{classMsg(a.K)}
+	for i := 1; i < a.M; i++ {
+		ms = append(ms, &banktypes.MsgSend{})
+	}
+	return ms
 }
 
 // testTx is the smallest sdk.Tx + SigVerifiableTx carrying one real message.
@@ -108,7 +118,7 @@ func TestDriveMempool(t *testing.T) {
 			ev := map[string]any{"h": h.H, "i": i + 1, "act": st.Act, "args": a, "out": []any{}, "res": "ok", "prio": 0}
 			switch st.Act {
 			case "Insert":
-				tx := testTx{arg: a, pub: keys[a.S-1], msgs: []sdk.Msg{classMsg(a.C)}}
+				tx := testTx{arg: a, pub: keys[a.S-1], msgs: msgsOf(a)}
 				// record the class rank the real priority function gives (binding of classes)
 				ev["prio"] = classRank(realPrio.GetTxPriority(ctx, tx))
 				e, _ := drv.Recover(func() error { return mp.Insert(ctx, tx) })
@@ -116,7 +126,7 @@ func TestDriveMempool(t *testing.T) {
 					ev["res"] = "err:" + e.Error()
 				}
 			case "Remove":
-				tx := testTx{arg: a, pub: keys[a.S-1], msgs: []sdk.Msg{classMsg(a.C)}}
+				tx := testTx{arg: a, pub: keys[a.S-1], msgs: msgsOf(a)}
 				e, _ := drv.Recover(func() error { return mp.Remove(tx) })
 				if e == sdkmempool.ErrTxNotFound {
 					ev["res"] = "notfound"
